@@ -24,6 +24,18 @@ CHECKS = [
            "contact speed exactly 0; open findings: van_leer absolute floor, exact niter-1 convergence, ducowicz tie"),
 ]
 
+CHECKS += [
+ dict(id='C13',
+      text="Proof over real entries for every size the property names reached by the tier (quick n<=4, thorough n<=6; nb,na "
+           "1..3): identity/dot/mat_mult/mat_vec_mult/augmented_matrix equal their definitions cell by cell with frames; "
+           "gj_solve soundness by a ghost-solution cut-point invariant checked after every row operation (result = X on "
+           "every path returning 0 without a zero diagonal); completeness witnesses executed exactly; linalg3.pyx det, "
+           "transform*, zero_matrix_case and eigen_decomposition (modular, against the assumed tred2+tql2 contract).",
+      note="float = R; sizes enumerated (the property's own finite range); NOT verified: tred2, tql2 (QL convergence), "
+           "get_eigenvalues -> the eigen clause holds only modulo their assumed contract; gj_solve G3 conditional on no "
+           "exactly-zero diagonal in back substitution; open findings: no row exchange, absolute pivot tolerance"),
+]
+
 NOT_APPLICABLE = [
  dict(property_id='C11', reason="round trip runs through numpy.savez/numpy.load/h5py and the compiled ParticleArray constructor; the repository code in between is dict/bytes glue no contract within reach can express (DESIGN.md section 4)"),
  dict(property_id='C12', reason="finite enumeration of scheme options decided by executing scheme code, generating and running; no function-level contract states it (DESIGN.md section 4)"),
@@ -31,7 +43,7 @@ NOT_APPLICABLE = [
 ]
 # properties not yet under a registered check are listed as not applicable
 # "pending" until their check lands, so the manifest is valid at all times
-PENDING = ['C01','C02','C03','C04','C05','C06','C07','C09','C10','C13','C14','C16','C17','C19','C20']
+PENDING = ['C01','C02','C03','C04','C05','C06','C07','C09','C10','C14','C16','C17','C19','C20']
 for p in PENDING:
     if p not in [c['id'] for c in CHECKS]:
         NOT_APPLICABLE.append(dict(property_id=p, reason="check not registered yet in this commit (work in progress, see DESIGN.md section 3 for the planned contracts)"))
